@@ -925,7 +925,11 @@ class SymStr(str):
         return not self.__eq__(o)
 
     def __hash__(self):
-        raise Unsupported("hash of a structured string")
+        # equal strings must hash alike: strings of one shape share a bucket and the container's == (symbolic, forking on
+        # ties) decides; a string without symbolic parts hashes as the plain string it is
+        if all(type(p) is str for p in self.parts):  # pylint: disable=unidiomatic-typecheck
+            return hash("".join(self.parts))
+        return hash(("symstr",) + tuple(type(p).__name__ for p in self.parts))
 
     def __add__(self, o):
         if isinstance(o, str):
